@@ -13,7 +13,19 @@ impl Serialize for Value {
 		match self {
 			Self::Null => serializer.serialize_unit(),
 			Self::Boolean(b) => serializer.serialize_bool(*b),
-			Self::Number(n) => n.serialize(serializer),
+			Self::Number(n) => {
+				if n.has_decimal_point() || n.as_i64().is_some() || n.as_u64().is_some() {
+					n.serialize(serializer)
+				} else {
+					// Exponent forms (`1e5`) and integers beyond 64 bits keep
+					// their exact spelling through the arbitrary precision
+					// channel, like numbers with a fraction.
+					use serde::ser::SerializeStruct;
+					let mut s = serializer.serialize_struct(NUMBER_TOKEN, 1)?;
+					s.serialize_field(NUMBER_TOKEN, n.as_str())?;
+					s.end()
+				}
+			}
 			Self::String(s) => serializer.serialize_str(s),
 			Self::Array(a) => {
 				use serde::ser::SerializeSeq;
